@@ -152,6 +152,8 @@ def shapes(tier, seed):
                 for rlen in rlens:
                     out.append({'h': 'push_fail', 'impl': impl, 'at': at, 'size': size, 'rlen': rlen, 'cuts': 0, 'reorder': True})
                 out.append({'h': 'push_fail', 'impl': impl, 'at': at, 'size': size, 'rlen': 3, 'cuts': 1, 'reorder': False})
+                if size > 2048:
+                    out.append({'h': 'push_fail', 'impl': impl, 'at': at, 'size': size, 'rlen': 2, 'cuts': 1, 'reorder': True, 'max_paths': 200000})
                 if not q:
                     out.append({'h': 'push_fail', 'impl': impl, 'at': at, 'size': size, 'rlen': 3, 'cuts': 2, 'reorder': False})
                 out.append({'h': 'push_badid', 'impl': impl, 'at': at, 'size': size, 'cuts': 0, 'reorder': True})
